@@ -98,6 +98,13 @@ add('C15', 'exploration', 'runtime monitoring: link-symmetry invariant after eve
     'No parallel edges, no cycles; combine_latest without emit_on; leftover complete zip tuples at a disconnect may be '
     'emitted at once, with the next element, or dropped.', 'DESIGN.md#C15')
 
+add('C19', 'exploration', 'runtime monitoring: exhaustive enumeration of the construction matrix, reading loop/mode/thread state after each real constructor call',
+    'The finite space upstream-situation x node type (incl. all 12 source classes) x asynchronous x loop is enumerated '
+    'completely; after each real constructor call node.loop/asynchronous of the whole pipeline, live threads and the '
+    'background-loop registry are compared with a 6-line expectation table; runnable asynchronous sources are started and '
+    'the thread of every callback is recorded; pristine subprocesses observe that no thread at all is started.',
+    'Expectation table of DESIGN.md Appendix B; network sources are constructed, not started.', 'DESIGN.md#C19')
+
 
 def main():
     props = [json.loads(l) for l in open(os.path.join(HERE, 'properties.jsonl'))]
